@@ -8,6 +8,34 @@ sys.path.insert(0, HERE)
 import props
 
 VERIF = os.path.dirname(HERE)
+
+
+def check_harness_names():
+    """Kani's --harness is a substring filter: a registered harness whose name is contained in
+    another harness name of the same crate would silently run (and be attributed) twice."""
+    import glob
+    import re
+    bad = []
+    for pid, P in props.PROPS.items():
+        for tier in ('quick', 'thorough'):
+            for job in P.get(tier, {}).get('kani', []):
+                names = set()
+                for f in glob.glob(os.path.join(VERIF, 'kani', job['crate'], '*.rs')) + glob.glob(os.path.join(VERIF, 'kani', 'common', '*.rs')):
+                    t = open(f).read()
+                    names |= set(re.findall(r'\bfn\s+([a-z][a-z0-9_]*)\s*\(', t))
+                    names |= set(re.findall(r'\b[a-z_]+!\(\s*([a-z][a-z0-9_]*)\s*,', t))
+                for h in job['harnesses']:
+                    if h not in names:
+                        bad.append(f'{pid}: harness {h} is not defined under kani/{job["crate"]}')
+                    for g in names:
+                        if g != h and h in g:
+                            bad.append(f'{pid}: harness name {h} is a substring of {g} (kani/{job["crate"]})')
+    if bad:
+        print('\n'.join(sorted(set(bad))))
+        sys.exit(1)
+
+
+check_harness_names()
 ids = [json.loads(l)['id'] for l in open(os.path.join(VERIF, 'properties.jsonl'))]
 checks = []
 na = []
